@@ -240,16 +240,21 @@ pub fn run(args: &Args, corpus: &[String]) -> Value {
         max_len.saturating_sub(1).max(3)
     ));
     // deep nesting (only shard 0 does the deterministic families)
+    // `--lite 1` (interpreted runs under Miri): shallow nesting only, no scaling families
+    let lite = args.num("lite", 0) != 0;
     if shard == 0 {
         for kind in 0..17 {
             for depth in [1usize, 2, 5, 20, 60, 120, 200] {
+                if lite && depth > 20 {
+                    continue;
+                }
                 let s = nesting_family(kind, depth);
                 check_one(&mut rep, &mut ctx, &s, "nesting");
                 rep.count("nesting_inputs", 1);
             }
         }
         // scaling families: steps(4n)/steps(n) must stay near 4
-        for kind in 0..9 {
+        for kind in 0..(if lite { 0 } else { 9 }) {
             let unit = scaling_unit(kind);
             let mut steps = vec![];
             for n in [64usize, 256, 1024] {
@@ -297,7 +302,16 @@ pub fn run(args: &Args, corpus: &[String]) -> Value {
     rep.count("random_soups", n_rand);
     if !corpus.is_empty() {
         let n_mut = args.num("mutants", if args.thorough() { 120_000 } else { 6_000 }) / shards;
-        if shard == 0 {
+        if lite {
+            // interpreted run: the corpus files are spread over the shards, a few per shard
+            let per = args.num("corpusfiles", 6) as usize;
+            let mine: Vec<&String> = corpus.iter().enumerate().filter(|(i, _)| *i as u64 % shards == shard).map(|(_, c)| c).collect();
+            for k in 0..per.min(mine.len()) {
+                let c = mine[(k * 7919 + args.seed as usize) % mine.len()];
+                check_one(&mut rep, &mut ctx, c, "corpus");
+                rep.count("corpus_files", 1);
+            }
+        } else if shard == 0 {
             for c in corpus {
                 check_one(&mut rep, &mut ctx, c, "corpus");
             }
